@@ -120,16 +120,20 @@ impl Indexable for Vec<Value> {
     }
 
     fn get(&self, index: i64) -> Result<Value, Error> {
-        let index: Result<usize, std::num::TryFromIntError> = if index >= 0 {
-            index.try_into()
+        // negative index counts from the end
+        let i: Option<usize> = if index >= 0 {
+            index.try_into().ok()
         } else {
-            (-index).try_into().map(|i: usize| self.len() - i)
+            index
+                .unsigned_abs()
+                .try_into()
+                .ok()
+                .and_then(|i: usize| self.len().checked_sub(i))
         };
-        let i: usize = index.context("failed to cast index from i64")?;
-        if i >= self.len() {
-            bail!("index out of bounds: {}", i)
+        match i {
+            Some(i) if i < self.len() => Ok(self[i].clone()),
+            _ => bail!("index out of bounds: {}", index),
         }
-        Ok(self[i].clone())
     }
 }
 
